@@ -110,3 +110,65 @@ Proof.
   rewrite (cw_built_nosuffix V veqb veqb_eq nfb1 pvs A1 Hs B1 cs Hc), (cw_built_nosuffix V veqb veqb_eq nfb2 pvs A2 Hs B2 cs Hc).
   auto.
 Qed.
+
+(* ---- the leftmost kinds ----------------------------------------------------------------------- *)
+From DV Require Import Proofs.BuildTrie Proofs.BuildProps Proofs.BuildCertLm Proofs.BwLeftmost Proofs.CwLeftmost Theory.LmfSpec.
+
+Section LmBuilt.
+Variable V : Type.
+Variable veqb : V -> V -> bool.
+Hypothesis veqb_eq : forall a b, veqb a b = true <-> a = b.
+
+Lemma built_valid_bw k nfb (pvs : list (list N * V)) A : 4 * total_len V pvs <= U32_MAX - 1 ->
+  bw_build_with_values V k nfb pvs = Ok A -> (forall p v, In (p, v) pvs -> p <> []) /\ NoDup (map fst pvs).
+Proof.
+  intros Hs H. destruct (bw_build_ok_lemma V k nfb pvs A Hs H) as (Hv & _). apply spec_build_error_none_iff_valid in Hv as (_ & Hne & Hnd).
+  split; [|exact Hnd]. intros p v Hin. rewrite Forall_forall in Hne. apply Hne. apply in_map_iff. exists (p, v). auto.
+Qed.
+Lemma built_valid_cw k nfb (pvs : list (list N * V)) A : 4 * total_len V pvs <= U32_MAX - 1 ->
+  cw_build_with_values V k nfb pvs = Ok A -> (forall p v, In (p, v) pvs -> p <> []) /\ NoDup (map fst pvs).
+Proof.
+  intros Hs H. destruct (cw_build_ok_lemma V k nfb pvs A Hs H) as (Hv & _). apply spec_build_error_none_iff_valid in Hv as (_ & Hne & Hnd).
+  split; [|exact Hnd]. intros p v Hin. rewrite Forall_forall in Hne. apply Hne. apply in_map_iff. exists (p, v). auto.
+Qed.
+
+Theorem bw_built_lml nfb (pvs : list (list N * V)) A :
+  (forall p v, In (p, v) pvs -> Forall (fun b => b < 256) p) -> 4 * total_len V pvs <= U32_MAX - 1 ->
+  bw_build_with_values V LeftmostLongest nfb pvs = Ok A ->
+  forall h, Forall (fun b => b < 256) h -> bw_leftmost_find_iter V A h = Ok (spec_lml V pvs h).
+Proof.
+  intros Hb Hs HA h Hh.
+  pose proof (bw_build_lm_cert_lemma V veqb (veqb_refl V veqb veqb_eq) LeftmostLongest nfb pvs A ltac:(discriminate) Hb Hs HA) as C.
+  exact (bw_leftmost_correct_lemma V veqb (veqb_sound V veqb veqb_eq) A pvs C h Hh).
+Qed.
+
+Theorem bw_built_lmf nfb (pvs : list (list N * V)) A :
+  (forall p v, In (p, v) pvs -> Forall (fun b => b < 256) p) -> 4 * total_len V pvs <= U32_MAX - 1 ->
+  bw_build_with_values V LeftmostFirst nfb pvs = Ok A ->
+  forall h, Forall (fun b => b < 256) h -> bw_leftmost_find_iter V A h = Ok (spec_lmf V pvs h).
+Proof.
+  intros Hb Hs HA h Hh. destruct (built_valid_bw _ _ _ _ Hs HA) as [Hne Hnd].
+  pose proof (bw_build_lm_cert_lemma V veqb (veqb_refl V veqb veqb_eq) LeftmostFirst nfb pvs A ltac:(discriminate) Hb Hs HA) as C.
+  rewrite (spec_lmf_is_lml_of_effective V pvs Hne Hnd h).
+  exact (bw_leftmost_correct_lemma V veqb (veqb_sound V veqb veqb_eq) A (effective V pvs) C h Hh).
+Qed.
+
+Theorem cw_built_lml nfb (pvs : list (list N * V)) A : 4 * total_len V pvs <= U32_MAX - 1 ->
+  cw_build_with_values V LeftmostLongest nfb pvs = Ok A ->
+  forall cs, Forall scalar cs -> cw_leftmost_find_iter V A (encode_utf8 cs) = Ok (map (to_bytes V cs) (spec_lml V pvs cs)).
+Proof.
+  intros Hs HA cs Hc.
+  pose proof (cw_build_lm_cert_lemma V veqb (veqb_refl V veqb veqb_eq) LeftmostLongest nfb pvs A ltac:(discriminate) Hs HA) as C.
+  exact (cw_leftmost_correct_lemma V veqb (veqb_sound V veqb veqb_eq) A pvs C cs Hc).
+Qed.
+
+Theorem cw_built_lmf nfb (pvs : list (list N * V)) A : 4 * total_len V pvs <= U32_MAX - 1 ->
+  cw_build_with_values V LeftmostFirst nfb pvs = Ok A ->
+  forall cs, Forall scalar cs -> cw_leftmost_find_iter V A (encode_utf8 cs) = Ok (map (to_bytes V cs) (spec_lmf V pvs cs)).
+Proof.
+  intros Hs HA cs Hc. destruct (built_valid_cw _ _ _ _ Hs HA) as [Hne Hnd].
+  pose proof (cw_build_lm_cert_lemma V veqb (veqb_refl V veqb veqb_eq) LeftmostFirst nfb pvs A ltac:(discriminate) Hs HA) as C.
+  rewrite (spec_lmf_is_lml_of_effective V pvs Hne Hnd cs).
+  exact (cw_leftmost_correct_lemma V veqb (veqb_sound V veqb veqb_eq) A (effective V pvs) C cs Hc).
+Qed.
+End LmBuilt.
